@@ -640,6 +640,7 @@ namespace Pistache::Http::Experimental
             const bool result = parser.feed(buffer, totalBytes);
             if (!result)
             {
+                parser.reset();
                 handleError("Client: Too long packet");
                 return;
             }
@@ -667,6 +668,7 @@ namespace Pistache::Http::Experimental
         }
         catch (const std::exception& ex)
         {
+            parser.reset();
             handleError(ex.what());
         }
     }
